@@ -573,3 +573,47 @@ def ctor_body(cfg):
             if real_map(nodes) != (parent, children):
                 return {"why": "refused constructor changed the forest", "pv": pv}
     return True
+
+
+def hist_body(cfg):
+    """C02/C01 over short histories: K successive calls (no faults) from a symbolic forest; after EVERY call the
+    outcome class and - for successful calls - the whole forest equal the functional model, and the invariant
+    holds.  States reached by real calls (detached nodes, emptied children lists, re-ordered siblings) are thereby
+    pre-states of the next call, which complements the single-step obligations' generated pre-states."""
+    clsname = cfg.get("cls", "mixin")
+    family = CLASSES[clsname][1]
+    n, pv = pick_forest(cfg)
+    parent, children = model_from_pv(pv)
+    ops = [pick_op(dict(cfg, noniter=False), n, family) for _ in range(cfg["K"])]
+    with concrete_region():
+        cls = CLASSES[clsname][0]
+        CTX.active = False
+        nodes = build_forest(cls, pv, False)
+        changed = 0
+        for k, op in enumerate(ops):
+            exp, eparent, echildren = F.apply_functional(parent, children, op, family)
+            if exp == "UNSPECIFIED":
+                return True
+            exc = do_call(nodes, op)
+            got = classify(exc)
+            if got != exp:
+                return {"why": "outcome class at step %d" % k, "pv": pv, "ops": ops, "got": got, "exp": exp, "exc": repr(exc)}
+            if exp == "ok":
+                if (eparent, echildren) != (parent, children):
+                    changed += 1
+                parent, children = eparent, echildren
+                if real_map(nodes) != (parent, children):
+                    return {"why": "forest after step %d differs from the specified effect" % k, "pv": pv, "ops": ops,
+                            "got": list(real_map(nodes)), "exp": [parent, children]}
+            else:
+                post = real_map(nodes)
+                if post != (parent, children):
+                    if exp == "LoopError" and op[0] == "children":
+                        return True  # refused after link changes (listed finding F1): the history ends here
+                    return {"why": "refused call at step %d changed the forest" % k, "pv": pv, "ops": ops}
+            bad = real_invariant(nodes)
+            if bad:
+                return {"why": "inconsistent forest after step %d: %s" % (k, bad), "pv": pv, "ops": ops}
+        if changed >= 2:
+            nontrivial()
+    return True
